@@ -50,6 +50,8 @@ def queries(kind):
         return _cache[kind]
     if kind == 'scheduler':
         rel, outer, inner = 'batch/batch/driver/instance_collection/pool.py', 'schedule_loop_body', 'user_runnable_jobs'
+    elif kind == 'jobprivate':
+        rel, outer, inner = 'batch/batch/driver/instance_collection/job_private.py', 'create_instances_loop_body', 'user_runnable_jobs'
     else:
         rel, outer, inner = 'batch/batch/driver/canceller.py', 'cancel_cancelled_ready_jobs_loop_body', 'user_cancelled_ready_jobs'
     text = loader.read(rel)
@@ -65,7 +67,7 @@ def queries(kind):
             raise HarnessError(f'{rel}:{inner}: job query does not read `jobs`')
     # Python control flow between the queries
     src = ast.get_source_segment(text, fn)
-    if kind == 'scheduler':
+    if kind in ('scheduler', 'jobprivate'):
         if "if not job_group['cancelled']" not in src:
             raise HarnessError('pool.py: the runnable-jobs query is no longer guarded by `if not job_group[\'cancelled\']`')
     else:
@@ -181,6 +183,43 @@ def scheduler_selects(db, j, user='user1'):
     return out
 
 
+def no_live_attempt(db, j):
+    """HAND-WRITTEN reading of the job-private queries' `HAVING live_attempts = 0` (live_attempts = number of the job's attempts
+    whose instance is pending or active): only WHERE clauses are evaluated from the source text."""
+    live = False
+    for k, r in db.t['attempts'].rows.items():
+        if k[1] != j:
+            continue
+        inst = r.vals['instance_name']
+        for ik, ir in db.t['instances'].rows.items():
+            st = ir.vals['state'].v
+            live = b_or(live, b_and(r.present, b_not(inst.n), i_eq(inst.v, ik[0]), ir.present,
+                                    b_or(i_eq(st, S.code('pending')), i_eq(st, S.code('active')))))
+    return b_not(live)
+
+
+def jobprivate_selects(db, j, user='user1', having=True):
+    """Condition that JobPrivateInstanceManager.create_instances_loop_body's candidate queries return job j."""
+    sels, _, _, _ = queries('jobprivate')
+    groups = group_rows(db, sels[0], user)
+    out = False
+    for g, (gc, gcanc) in groups.items():
+        a = job_where(db, sels[1], j, g)
+        r = b_and(b_not(gcanc), job_where(db, sels[2], j, g))
+        in_g = i_eq(db.t['jobs'].rows[(1, j)].vals['job_group_id'].v, g)
+        out = b_or(out, b_and(gc, in_g, b_or(a, r)))
+    return b_and(out, no_live_attempt(db, j)) if having else out
+
+
+def job_in_pool(db, j):
+    """the job's instance collection is a pool (else: job-private)"""
+    ic = db.t['jobs'].rows[(1, j)].vals['inst_coll'].v
+    out = False
+    for k, r in db.t['inst_colls'].rows.items():
+        out = b_or(out, b_and(i_eq(ic, k[0]), r.present, truth(r.vals['is_pool'])))
+    return out
+
+
 def canceller_selects(db, j, user='user1'):
     sels, _, _, _ = queries('canceller')
     groups = group_rows(db, sels[0], user)
@@ -194,6 +233,6 @@ def canceller_selects(db, j, user='user1'):
 
 
 def encode(R):
-    for kind in ('scheduler', 'canceller'):
+    for kind in ('scheduler', 'jobprivate', 'canceller'):
         sels, strs, rel, line = queries(kind)
         R.encode(f'{rel}:{line} candidate queries ({kind})', '\n'.join(strs))
